@@ -462,6 +462,16 @@ def run_check(pid, tier='quick', replay=None):
                                             dict(broken_obligation=what, disagreeing_cases=[cases[i] for i in mismatch_only[:5]],
                                                  searched_cases=searched)), ' no-failing-input-found'))
 
+    # ---- independent re-check of the compiled proofs (thorough tier): coqchk -o lists the axioms everything relies on
+    coqchk = None
+    if tier == 'thorough' and not proof_broken:
+        rc, out = sh('flock %s/.buildlock timeout 1500 coqchk -o -Q theories BNP BNP.Props.%s' % (WORK, pid), timeout=4000, cwd=COQ)
+        m = re.search(r'CONTEXT SUMMARY.*', out, re.S)
+        coqchk = dict(ok=(rc == 0 and 'Modules were successfully checked' in out),
+                      summary=' '.join((m.group(0) if m else out[-600:]).split())[:900])
+        if not coqchk['ok']:
+            violations.append((write_replay('coqchk rejected the compiled development', None, dict(coqchk=out[-1500:])), ' no-failing-input-found'))
+
     # ---- evidence
     seen = set()
     nontriv = 0
@@ -494,7 +504,7 @@ def run_check(pid, tier='quick', replay=None):
             evaluations=len(cases), distinct_nontrivial=nontriv, rule=getattr(mod, 'RULE', ''),
             samples=samples, distribution=dist, exhaustive=bool(getattr(mod, 'EXHAUSTIVE', {}).get(tier, False)),
             model_mismatches=len(mbad), spec_violations=len(sbad), known_finding_hits=known_hits,
-            partial=list(getattr(mod, 'PARTIAL', [])), tie=getattr(mod, 'TIE', 'correspondence'),
+            partial=list(getattr(mod, 'PARTIAL', [])), tie=getattr(mod, 'TIE', 'correspondence'), coqchk=coqchk,
             notes=notes),
         assumptions=list(getattr(mod, 'ASSUMPTIONS', [])),
         wall_s=round(time.time() - t0, 1), violations=len(violations))
